@@ -1166,7 +1166,22 @@ func (m *ExpirationManager) RevokeByToken(ctx context.Context, te *logical.Token
 
 	// Revoke all the keys by marking them expired
 	for _, leaseID := range existing {
-		err := m.lazyRevokeInternal(ctx, leaseID)
+		// A token can obtain leases in the namespaces below its own; such a
+		// lease lives in the lease view of the namespace named by its ID.
+		leaseCtx := ctx
+		if _, nsID := namespace.SplitIDFromString(leaseID); nsID != "" && nsID != tokenNS.ID {
+			leaseNS, err := m.core.NamespaceByID(ctx, nsID)
+			if err != nil {
+				return err
+			}
+			if leaseNS == nil {
+				// The namespace is gone, and its leases with it.
+				continue
+			}
+			leaseCtx = namespace.ContextWithNamespace(ctx, leaseNS)
+		}
+
+		err := m.lazyRevokeInternal(leaseCtx, leaseID)
 		if err != nil {
 			return err
 		}
